@@ -61,6 +61,10 @@ Definition act_qfrc (J : list T) (g b : T * T * T) (input len : T) (qvel : list 
 (* mjd_actuator_vel: bias_vel = biasprm[2]; gain_vel = gainprm[2]; bias_vel += gain_vel * input *)
 Definition act_slope (g b : T * T * T) (input : T) : T :=
   let '(g0, g1, g2) := g in let '(b0, b1, b2) := b in b2 + g2 * input.
+(* the input of a stateless actuator in mjd_actuator_vel: the control clamped to ctrlrange as the forward pass clamps it
+   (limited = actuator_ctrllimited[uadr] && !mjDISABLED(mjDSBL_CLAMPCTRL); limits indexed by control) *)
+Definition ctrl_input (limited : bool) (c lo hi : T) : T :=
+  if limited then (if c <? lo then lo else if hi <? c then hi else c) else c.
 (* skipped when the force sits on its forcerange: force <= range[0] || force >= range[1] *)
 Definition act_clamped (limited : bool) (force lo hi : T) : bool :=
   limited && ((force <=? lo) || (hi <=? force)).
